@@ -1,6 +1,209 @@
-(* C12 -- placeholder while the proofs are being written *)
+(* C12 -- Imported BLIF and ISCAS netlists compute the function the file defines.
+   Only statements + `exact`; proofs live in IO/BlifProofs.v, IO/BlifIscasProofs.v.
+   Specification side: IO/BlifSem.v (cover_sem, decode_cell/dff_next, init codes,
+   blif_run, flatten), IO/Iscas.v (gate_sem).  Implementation side: IO/BlifImport.v
+   and IO/Iscas.v over Gen/BlifTables.v, which is regenerated from
+   /repo/pyrtl/importexport.py on every run. *)
 From Coq Require Import ZArith List Bool String.
-From PyRTL Require Import IO.BlifSyntax IO.BlifSem Gen.BlifTables IO.BlifImport IO.Iscas.
+From PyRTL Require Import IO.BlifSyntax IO.BlifSem Gen.BlifTables IO.BlifImport IO.Iscas
+                          IO.BlifProofs IO.BlifHierProofs IO.BlifIscasProofs.
 Import ListNotations.
-Example C12_placeholder : decode_cell "$_DFF_P_" = Some (mkCell None None None false).
-Proof. vm_compute. reflexivity. Qed.
+Open Scope Z_scope.
+
+(* extract_cover: for EVERY well-formed .names (any number of inputs, any row
+   list, don't-cares, constant covers) the importer drives the last signal
+   with an expression that evaluates, under every valuation, to the on-set
+   cover semantics.  Special-cased literals (from the regenerated table) and
+   the generic rtl_any(rtl_all(..)) branch (tree_reduce) alike. *)
+Theorem C12_cover_correct : forall sigs rows, cover_wf sigs rows = true ->
+  exists e, extract_cover sigs rows = Some (last sigs (L 0), e)
+            /\ forall rho, beval rho e = cover_sem rows (map rho (removelast sigs)).
+Proof. exact cover_correct. Qed.
+Print Assumptions C12_cover_correct.
+
+(* flop_next (regenerated from the source) agrees with the cell semantics
+   obtained by DECODING THE CELL NAME, for every listed cell and all values
+   of D, E, S, R and the previous state; it mentions only pins the cell has.
+   Finite domain, decided completely: 32 cells x 2^5 valuations. *)
+Theorem C12_flop_table_correct : forall cell, In cell dff_names ->
+  exists body cd,
+    str_assoc flop_table cell = Some body /\ decode_cell (canon_cell cell) = Some cd
+    /\ has_absent body = false
+    /\ (forall x, In x (bvars body) -> pin_allowed cd x = true)
+    /\ forall d e s r q, beval (flop_env d e s r q) body = dff_next cd d e s r q.
+Proof. exact flop_table_correct. Qed.
+Print Assumptions C12_flop_table_correct.
+
+(* the same, as the importer uses it: the register built for a $_DFF.. /
+   $_SDFF.. instance has the decoded cell's next-state function of the
+   signals bound to its pins (absent pins read as 0 and are never used) *)
+Theorem C12_extract_flop_correct : forall cell d q e s r o dr,
+  extract_flop cell d q e s r = Some (o, dr) ->
+  o = q /\ exists nx cd, dr = DReg nx flop_reset /\ decode_cell (canon_cell cell) = Some cd /\
+    forall rho, beval rho nx
+      = dff_next cd (rho d) (opt_ev rho e) (opt_ev rho s) (opt_ev rho r) (rho q).
+Proof. exact extract_flop_sem. Qed.
+Print Assumptions C12_extract_flop_correct.
+
+(* dff_names and the keys of flop_next coincide (the NOTE in the source) *)
+Theorem C12_dff_names_table_consistent :
+  forallb (fun c => existsb (String.eqb c) (map fst flop_table)) dff_names = true
+  /\ forallb (fun c => existsb (String.eqb c) dff_names) (map fst flop_table) = true.
+Proof. exact dff_names_table_consistent. Qed.
+Print Assumptions C12_dff_names_table_consistent.
+
+(* .latch: each of the four init codes is accepted and the register's reset
+   value satisfies it (0 -> 0, 1 -> 1, 2/3 -> anything) *)
+Theorem C12_latch_init : forall code, 0 <= code <= 3 ->
+  exists r, latch_init_map code = Some r /\ existsb (Z.eqb code) latch_init_codes = true
+            /\ init_code_ok code (reset_bool r).
+Proof. exact latch_init_correct. Qed.
+Print Assumptions C12_latch_init.
+
+(* Flat models (covers, latches, flip-flop cells; outputs may be read
+   internally): whenever the importer accepts a model whose covers are
+   well-formed, the imported circuit produces, for EVERY input sequence, every
+   initial state and every evaluation depth, exactly the per-cycle outputs of
+   the BLIF semantics, and its initial register values are allowed by the
+   file's init codes. *)
+Theorem C12_flat_model_refines_blif : forall m c, model_wf m = true -> import_flat m = Some c ->
+  (forall fuel st inss, c_run fuel c st inss = blif_run fuel m st inss)
+  /\ blif_init_ok m (slookup (c_init c)).
+Proof. exact flat_import_correct. Qed.
+Print Assumptions C12_flat_model_refines_blif.
+
+(* Hierarchy: instantiating .subckt model references the way the importer does
+   (fresh wires per instance, formal <<= actual for inputs, actual <<= formal
+   for outputs) yields exactly the import of the FLATTENED model -- the BLIF
+   definition of .subckt (a renamed copy of the referenced model with formals
+   tied to actuals) -- for every model library, nesting depth and instance
+   count; both sides fail together. *)
+Theorem C12_subckt_import_is_flatten : forall fuel lib top,
+  import_blif fuel lib top
+  = match flatten_model fuel lib top with Some fm => import_flat fm | None => None end.
+Proof. exact hier_import_defined. Qed.
+Print Assumptions C12_subckt_import_is_flatten.
+
+(* hence hierarchical models compute blif_run of their flattening, for every
+   input sequence *)
+Theorem C12_hier_model_refines_blif : forall fuel lib top c fm,
+  import_blif fuel lib top = Some c -> flatten_model fuel lib top = Some fm ->
+  model_wf fm = true ->
+  (forall fuel' st inss, c_run fuel' c st inss = blif_run fuel' fm st inss)
+  /\ blif_init_ok fm (slookup (c_init c)).
+Proof. exact hier_import_correct. Qed.
+Print Assumptions C12_hier_model_refines_blif.
+
+(* vector ports under merge_io_vectors=True: Output a = concat_list([a[0], a[1], ..])
+   carries bit i of a on position i and stays in range; Input a feeds a[i] with bit i *)
+Theorem C12_vector_ports : forall bits,
+  (forall i, vec_bit (vec_merge bits) i = nth i bits false)
+  /\ 0 <= vec_merge bits < 2 ^ Z.of_nat (List.length bits).
+Proof. exact (fun bits => conj (vec_merge_bit bits) (vec_merge_range bits)). Qed.
+Print Assumptions C12_vector_ports.
+
+(* ISCAS .bench: every combinational gate read at the arity the importer
+   handles completely (2 sources; 1 for NOT/BUFF) computes the .bench gate
+   function for all sources and valuations. *)
+Theorem C12_iscas_exact_arity_correct : forall g srcs, In g comb_gates ->
+  List.length srcs = iscas_exact_arity g ->
+  exists e, iscas_gate g (map BVar srcs) = Some (DComb e) /\ has_absent e = false
+            /\ forall rho, gate_sem g (map rho srcs) = Some (beval rho e).
+Proof. exact iscas_gate_exact_correct. Qed.
+Print Assumptions C12_iscas_exact_arity_correct.
+
+(* whole .bench netlists (gates + DFFs) whose gates all have that arity: the
+   imported block computes bench_run for every input sequence *)
+Theorem C12_bench_exact_arity_refines : forall b c, bench_wf b = true -> import_bench b = Some c ->
+  forall fuel st inss, c_run fuel c st inss = bench_run fuel b st inss.
+Proof. exact bench_import_correct. Qed.
+Print Assumptions C12_bench_exact_arity_refines.
+
+(* The full ISCAS statement (n-ary AND/OR/NAND/NOR/XOR) ... *)
+Definition C12_iscas_full_statement : Prop :=
+  forall g srcs, In g comb_gates -> gate_sem g (map (fun _ => false) srcs) <> None ->
+  exists e, iscas_gate g (map BVar srcs) = Some (DComb e)
+            /\ forall rho, gate_sem g (map rho srcs) = Some (beval rho e).
+
+(* ... is FALSE of the code as it stands (defect F8): y = AND(a, b, c) with
+   a = b = 1, c = 0 imports as a gate evaluating to 1. *)
+Theorem C12_iscas_nary_refuted :
+  exists g srcs rho e,
+    In g comb_gates /\ gate_sem g (map rho srcs) <> None
+    /\ iscas_gate g (map BVar srcs) = Some (DComb e)
+    /\ gate_sem g (map rho srcs) <> Some (beval rho e).
+Proof. exact iscas_nary_refuted. Qed.
+Print Assumptions C12_iscas_nary_refuted.
+
+Theorem C12_iscas_full_statement_refuted : ~ C12_iscas_full_statement.
+Proof. exact iscas_full_statement_false. Qed.
+Print Assumptions C12_iscas_full_statement_refuted.
+
+(* ---------- non-vacuity ---------- *)
+Open Scope string_scope.
+
+(* a 3-input cover with don't-cares, a constant, a latch (init 1), an enabled
+   flop with synchronous reset (enable over reset), an output read internally *)
+Definition ex_model : model :=
+  mkModel [L 0; L 1; L 2] [L 3; L 6; L 8]
+    [ Names [L 0; L 1; L 2; L 3] [[P1; PD; P0]; [PD; P1; P1]; [P0; P0; PD]];
+      Names [L 4] [[]];
+      Names [L 3; L 4; L 5] [[P1; P1]];
+      Latch (L 5) (L 6) 1;
+      Names [L 6; L 0; L 7] [[P0; PD]; [PD; P0]];
+      Flop "$_SDFFCE_PN0P_" (L 7) (L 8) (Some (L 1)) None (Some (L 2)) ].
+
+Example C12_example_wf : model_wf ex_model = true /\ import_flat ex_model <> None.
+Proof. vm_compute. split; [reflexivity|discriminate]. Qed.
+
+Example C12_example_trace :
+  match import_flat ex_model with
+  | Some c =>
+      let inss := map (fun v x => match x with L i => Z.testbit v i | _ => false end) [5; 3; 6; 0; 7] in
+      c_run 8 c (c_init c) inss = blif_run 8 ex_model (blif_init0 ex_model) inss
+      /\ blif_run 8 ex_model (blif_init0 ex_model) inss
+         = [[false; true; false]; [true; false; false]; [true; true; false];
+            [true; true; true]; [true; true; true]]
+  | None => False
+  end.
+Proof. vm_compute. split; reflexivity. Qed.
+
+Example C12_example_cover_wf :
+  cover_wf [L 0; L 1; L 2; L 3] [[P1; PD; P0]; [PD; P1; P1]; [P0; P0; PD]] = true
+  /\ cover_wf [L 4] [[]] = true /\ cover_wf [L 4] [] = true.
+Proof. vm_compute. repeat split; reflexivity. Qed.
+
+Example C12_example_cell_in_table :
+  In "$_SDFFCE_PN0P_" dff_names /\ In "$_DFFSR_PPP" dff_names
+  /\ decode_cell (canon_cell "$_DFFSR_PPP")
+     = Some (mkCell None (Some (true, false)) (Some true) false).
+Proof. vm_compute. repeat split; auto 40. Qed.
+
+(* a two-level hierarchy: leaf (and gate + latch) inside mid (two leaves) inside top *)
+Definition ex_leaf : model :=
+  mkModel [L 0; L 1] [L 2; L 4]
+    [ Names [L 0; L 1; L 2] [[P1; P1]]; Latch (L 2) (L 4) 2 ].
+Definition ex_mid : model :=
+  mkModel [L 0; L 1] [L 5]
+    [ Subckt 10 [(L 0, L 0); (L 1, L 1); (L 2, L 2); (L 4, L 3)];
+      Subckt 10 [(L 0, L 3); (L 1, L 2); (L 2, L 5)] ].
+Definition ex_top : model :=
+  mkModel [L 0; L 1] [L 2; L 3]
+    [ Subckt 20 [(L 0, L 0); (L 1, L 1); (L 5, L 2)]; Names [L 2; L 0; L 3] [[P0; PD]; [PD; P1]] ].
+Definition ex_lib : list (Z * model) := [(10, ex_leaf); (20, ex_mid)].
+
+Example C12_example_hier :
+  match import_blif 5 ex_lib ex_top, flatten_model 5 ex_lib ex_top with
+  | Some c, Some fm =>
+      model_wf fm = true /\ List.length (mcmds fm) = 15%nat
+      /\ let inss := map (fun v x => match x with L i => Z.testbit v i | _ => false end) [3; 3; 1; 3] in
+         c_run 20 c (c_init c) inss = [[false; true]; [true; true]; [false; true]; [false; true]]
+  | _, _ => False
+  end.
+Proof. vm_compute. repeat split; reflexivity. Qed.
+
+Example C12_example_bench :
+  let b := mkBench [L 0; L 1] [L 3]
+             [(L 2, "NAND", [L 0; L 1]); (L 4, "DFF", [L 2]); (L 3, "XOR", [L 4; L 0])] in
+  bench_wf b = true /\ import_bench b <> None.
+Proof. vm_compute. split; [reflexivity|discriminate]. Qed.
